@@ -212,9 +212,9 @@ func genScenario(r *kit.Rng, kind, tier string) *scenario {
 			class = "extreme"
 		case kind == "malformed" && r.Chance(1, 3):
 			class = "negative"
-		case r.Chance(1, 14):
+		case r.Chance(1, 40): // findings F23 lives here: keep the stream thin so that it masks little
 			class = "subcount"
-		case r.Chance(1, 25):
+		case r.Chance(1, 60):
 			class = "zero"
 		}
 		l := genLimit(r, i+1, class)
@@ -374,7 +374,92 @@ func genScenario(r *kit.Rng, kind, tier string) *scenario {
 	return sc
 }
 
-var kinds = []string{"single", "multi", "multi", "isolation", "reset", "single", "multi", "concurrent", "reset", "malformed", "isolation", "extreme"}
+// genLimiterScenario: an application with 2-5 limits (different operation sets on the same
+// resources, ALL/EACH, workspace/IP scopes, QName and kind filters) and requests through
+// IAppPartition.IsLimitExceeded / ResetRateLimit, framed by direct reads of the bucket states
+func genLimiterScenario(r *kit.Rng, tier string) *scenario {
+	sc := &scenario{Note: "limiter"}
+	tableOps := [][]int{{5}, {1, 2}, {1}, {2, 5}, {1, 2, 3, 4, 5}, {3, 4}, {5, 1}}
+	n := 2 + r.Intn(4)
+	for i := 1; i <= n; i++ {
+		l := limitSpec{Name: i, Each: r.Bool(), ScopeWS: r.Chance(2, 3), ScopeIP: r.Chance(1, 3)}
+		if r.Chance(1, 3) {
+			l.Extra = append(l.Extra, kit.Pick(r, []int{1, 3}))
+		}
+		switch x := r.Intn(10); {
+		case i <= 2 || x < 4: // the hot table doc1 under several limits with different operation sets
+			l.Ops = kit.Pick(r, tableOps)
+			l.Filter = filterSpec{Kind: "qnames", Res: []int{1}}
+			if r.Chance(1, 3) {
+				l.Filter.Res = append(l.Filter.Res, kit.Pick(r, []int{2, 3}))
+			}
+		case x < 6:
+			l.Ops = kit.Pick(r, tableOps)
+			l.Filter = filterSpec{Kind: "tables"}
+		case x < 8:
+			l.Ops = []int{6}
+			l.Filter = filterSpec{Kind: kit.Pick(r, []string{"functions", "qnames"}), Res: []int{4, 6}}
+		case x < 9:
+			l.Ops = []int{6}
+			l.Filter = filterSpec{Kind: "all"}
+		default:
+			l.Ops = kit.Pick(r, tableOps)
+			l.Filter = filterSpec{Kind: "all"}
+		}
+		if l.Filter.Kind != "qnames" {
+			l.Filter.Res = nil
+		}
+		l.Count = kit.Pick(r, []uint32{1, 2, 3, 3, 5})
+		l.Period = int64(l.Count) * kit.Pick(r, []int64{1000, 1_000_000_000, 60_000_000_000, 1_200_000_000_000})
+		sc.Limits = append(sc.Limits, l)
+	}
+	opsUsed := []int{1, 2, 5, 6}
+	for _, l := range sc.Limits {
+		opsUsed = append(opsUsed, l.Ops...)
+	}
+	genReq := func() reqSpec {
+		return reqSpec{Res: kit.Pick(r, []int{1, 1, 1, 1, 2, 3, 4, 6, 5, 7, 9}), Op: kit.Pick(r, opsUsed), WS: 1 + r.Intn(2), Addr: 1 + r.Intn(2)}
+	}
+	readAll := func(q reqSpec) {
+		for _, l := range sc.Limits {
+			k := l.keyOf(q)
+			sc.Ops = append(sc.Ops, &opSpec{Kind: "get", Key: &k})
+		}
+	}
+	nOps := 30 + r.Intn(40)
+	if tier == "thorough" {
+		nOps += r.Intn(60)
+	}
+	for len(sc.Ops) < nOps {
+		q := genReq()
+		l := kit.Pick(r, sc.Limits)
+		ival := uint64(l.Period / int64(l.Count))
+		dt := kit.Pick(r, []uint64{0, 0, 0, 1, ival - 1, ival, ival + 1, uint64(l.Period), 2 * uint64(l.Period), 1000})
+		qq := q
+		switch x := r.Intn(20); {
+		case x < 5: // burst of one request through the capacity of its tightest limit
+			for j := 0; j < 3+r.Intn(5); j++ {
+				d := uint64(0)
+				if j == 0 {
+					d = dt
+				}
+				sc.Ops = append(sc.Ops, &opSpec{Dt: d, Kind: "exceeded", Req: &qq})
+			}
+		case x < 9: // a request framed by the states of the buckets of every limit, applicable or not
+			sc.Ops = append(sc.Ops, &opSpec{Dt: dt, Kind: "get", Key: func() *keySpec { k := sc.Limits[0].keyOf(q); return &k }()})
+			readAll(q)
+			sc.Ops = append(sc.Ops, &opSpec{Kind: "exceeded", Req: &qq})
+			readAll(q)
+		case x < 10:
+			sc.Ops = append(sc.Ops, &opSpec{Dt: dt, Kind: "resetlimits", Req: &qq})
+		default:
+			sc.Ops = append(sc.Ops, &opSpec{Dt: dt, Kind: "exceeded", Req: &qq})
+		}
+	}
+	return sc
+}
+
+var kinds = []string{"single", "multi", "limiter", "isolation", "reset", "limiter", "multi", "concurrent", "reset", "malformed", "limiter", "extreme", "single", "multi", "isolation", "limiter"}
 
 func loadScenario(b []byte) (*scenario, error) {
 	var wrapper struct {
@@ -445,7 +530,14 @@ func Generate(seed uint64, n int, tier string, corpusDir string, out *kit.Out) e
 	}
 	for i := 0; i < n; i++ {
 		cr := r.Fork()
-		if err := emitScenario(genScenario(cr, kinds[i%len(kinds)], tier), out); err != nil {
+		kind := kinds[i%len(kinds)]
+		sc := (*scenario)(nil)
+		if kind == "limiter" {
+			sc = genLimiterScenario(cr, tier)
+		} else {
+			sc = genScenario(cr, kind, tier)
+		}
+		if err := emitScenario(sc, out); err != nil {
 			return err
 		}
 	}
@@ -472,7 +564,7 @@ func nontrivial(sc *scenario) bool {
 		if o.Obs == nil {
 			continue
 		}
-		if o.Kind == "take" && o.Obs.OK != nil && o.N > 0 {
+		if (o.Kind == "take" && o.N > 0 || o.Kind == "exceeded") && o.Obs.OK != nil {
 			if *o.Obs.OK {
 				adm = true
 			} else {
@@ -492,12 +584,17 @@ func nontrivial(sc *scenario) bool {
 
 func shapeKey(sc *scenario) string {
 	var sb strings.Builder
+	for _, l := range sc.Limits {
+		fmt.Fprintf(&sb, "L%v", l)
+	}
 	for _, o := range sc.Ops {
 		switch o.Kind {
 		case "default", "reset":
 			fmt.Fprintf(&sb, "|%c%d:%d/%d/%d", o.Kind[0], o.Name, o.State.Max, o.State.Period, o.State.Taken)
 		case "take", "ctake":
 			fmt.Fprintf(&sb, "|%c+%d:%v*%d", o.Kind[0], o.Dt, o.Keys, o.N)
+		case "exceeded", "resetlimits":
+			fmt.Fprintf(&sb, "|%c+%d:%v", o.Kind[0], o.Dt, *o.Req)
 		case "get":
 			fmt.Fprintf(&sb, "|g+%d:%v", o.Dt, *o.Key)
 		case "set":
@@ -543,8 +640,50 @@ func scenarioTags(sc *scenario) map[string]bool {
 			t["cfg:taken>0"] = true
 		}
 	}
+	for _, l := range sc.Limits {
+		cfg(&stateSpec{Period: l.Period, Max: l.Count})
+		if l.Each {
+			t["lim:each"] = true
+		} else {
+			t["lim:all"] = true
+		}
+		if l.ScopeWS {
+			t["lim:scope-workspace"] = true
+		}
+		if l.ScopeIP {
+			t["lim:scope-ip"] = true
+		}
+		t["lim:filter-"+l.Filter.Kind] = true
+	}
 	var prevRefusedMulti bool
 	for _, o := range sc.Ops {
+		if o.Req != nil && o.Kind == "exceeded" {
+			keys, app := reqKeys(sc.Limits, *o.Req)
+			t[fmt.Sprintf("lim:%d-limits-apply", len(keys))] = true
+			if len(app) > 0 {
+				for _, l := range sc.Limits {
+					if l.Name < app[len(app)-1].Name && !l.applies(*o.Req) {
+						hit := false
+						for _, m := range l.matches() {
+							hit = hit || m == o.Req.Res
+						}
+						if hit {
+							t["lim:limit-of-other-operations-listed-before-an-applicable-one"] = true
+						}
+					}
+				}
+			}
+			if o.Obs != nil && o.Obs.OK != nil {
+				if *o.Obs.OK {
+					t["out:admitted"] = true
+				} else {
+					t["out:refused"] = true
+					if len(keys) > 1 {
+						t["out:refused-multi"] = true
+					}
+				}
+			}
+		}
 		if o.State != nil {
 			cfg(o.State)
 		}
